@@ -277,6 +277,31 @@ Definition cache_task_best_effort_o (ippvs plr ippl dra : bool) (ko : option (li
   | None => task_best_effort ippvs plr ippl dra m p
   end.
 
+(* ---- events: SchedulerCache.AddPod / UpdatePod (cache/event_handlers.go 270-300, 357-372, 452-497) ----
+   for a pod that is bound to a known node and not terminated.  addPod builds a
+   NEW TaskInfo from the pod object of the event and addTask charges it
+   (NodeInfo.AddTask: Used.Add(Resreq)); updatePod is deletePod(old) - RemoveTask:
+   Used.Sub(stored Resreq) - followed by addPod(new).  The state kept here: the
+   cached task's request and the node's Used vector (one pod on the node). *)
+Record cache_st := mkSt { st_task : res; st_used : res }.
+
+Definition ev_add (req : res) : cache_st := mkSt req (add empty_res req).
+Definition ev_update (st : cache_st) (req : res) : cache_st :=
+  mkSt req (add (sub (st_used st) (st_task st)) req).
+
+(* the states after each event of a history: AddPod(v0), UpdatePod(v0,v1), ... ;
+   [reqs] are the requests computed from the successive pod objects *)
+Fixpoint ev_trace_from (st : cache_st) (reqs : list res) : list cache_st :=
+  match reqs with
+  | [] => []
+  | r :: rs => let st' := ev_update st r in st' :: ev_trace_from st' rs
+  end.
+Definition ev_trace (reqs : list res) : list cache_st :=
+  match reqs with
+  | [] => []
+  | r :: rs => ev_add r :: ev_trace_from (ev_add r) rs
+  end.
+
 (* ================= upstream ================= *)
 
 (* PodResourcesOptions, the fields the scheduler sets; the others are at their
